@@ -213,7 +213,7 @@ def _corruption(ctx):
 
 # ------------------------------------------------------------------ negotiation
 TOKENS = ['gzip', 'lz4', 'x-lz4', 'identity', '*', 'br']
-QS = ['', ';q=1', ';q=0.5', ';q=0', ';q=0.0', ';q=0.000']
+QS = ['', ';q=1', ';q=0.5', ';q=0', ';q=0.0', ';q=0.000', '; q=0', ';q = 0', ' ; q =0 ', ';Q=0', '; q = 0.5']
 SHAPES = [',', ', ', ' , ']
 
 
@@ -235,9 +235,9 @@ def acceptable(header_members, coding):
 
 
 def _qval(q):
-    if not q:
+    if not q or '=' not in q:
         return 1.0
-    return float(q.split('=')[1])
+    return float(q.split('=')[1].strip())
 
 
 class _Server:
